@@ -323,7 +323,17 @@ def _budget_models(ctx: Ctx) -> int:
         if d is None or d.cls is None or d.cls.fullname == BUDGET:
             continue
         init = prog.lookup_method(c, "__init__")
-        calls = {call_name(x) for g in [d] for x in ast.walk(g.node) if isinstance(x, ast.Call)}
+        # what is_done consults, through the helper methods / properties of this very class it goes through (a template method in a base class
+        # is classified per concrete subclass)
+        reach_ = [d]
+        for x in ast.walk(d.node):
+            if isinstance(x, (ast.Call, ast.Attribute)):
+                a_ = x.func if isinstance(x, ast.Call) else x
+                if isinstance(a_, ast.Attribute) and isinstance(a_.value, ast.Name) and a_.value.id == "self":
+                    h_ = prog.lookup_method(c, a_.attr)
+                    if h_ is not None and h_ not in reach_:
+                        reach_.append(h_)
+        calls = {call_name(x) for g in reach_ for x in ast.walk(g.node) if isinstance(x, ast.Call)}
         iparams = [p_ for p_ in (init.params[1:] if init else [])]
 
         def run_case(tracker_model: dict, self_env: dict):
